@@ -1341,7 +1341,7 @@ def sinks(rng, B):
         for _ in range(rng.randint(1, 3)):
             k = rng.choice(["shift", "shift-mask", "const-shift", "const-alu", "exp", "sha3", "ret", "log", "call", "create", "copy", "mem", "jump",
                             "slot-arith", "mask", "mulshift", "signext-byte", "divmod", "nested-hash", "sstore-const",
-                            "mstore8", "balance", "map-proj", "map-proj"])
+                            "mstore8", "balance", "map-proj", "map-proj", "const-preimage-key", "const-preimage-key"])
             feats.add(k)
             if k == "shift":
                 sym()
@@ -1428,6 +1428,24 @@ def sinks(rng, B):
                 a.emit(rng.choice([b(), (1 << 56) - 1, 1 << 56, (1 << 64) - 1, 1 << 64, (1 << 56) + 3, 1, 2]), "ADD")
                 if rng.random() < 0.5:
                     a.emit("SLOAD", rng.choice(["POP", [b(), "AND", 0, "MSTORE"]]))
+                else:
+                    sym()
+                    a.emit("SWAP1", "SSTORE")
+            elif k == "const-preimage-key":
+                # a storage key that is the hash of 2-6 constant words (named / proxy slots, ABI-encoded strings: pointer
+                # 0x20, a length word, data words) - every word position takes hostile constants
+                n = rng.randint(2, 6)
+                words = [rng.choice([0x20, 0x20, b(), 0x40, 0])] + [b() if rng.random() < 0.6 else rng.choice(
+                    [1, 5, 31, 32, 33, 64, 65, 96, 1 << 16, (1 << 64) - 1, (1 << 64) - 31, evm.M256,
+                     int.from_bytes(b"eip1967.proxy.implementation".ljust(32, b"\0"), "big")]) for _ in range(n - 1)]
+                base = rng.choice([0, 0x80, 0x100])
+                for j, w in enumerate(words):
+                    a.emit(("push", w, None) if w else ("push", 0, 1), base + 0x20 * j, "MSTORE")
+                a.emit(rng.choice([0x20 * n, 0x20 * n, 0x20 * (n - 1), 0x20 * n + 1]), base, "SHA3")
+                if rng.random() < 0.3:
+                    a.emit(rng.choice([1, b()]), rng.choice(["ADD", "SUB"]))
+                if rng.random() < 0.5:
+                    a.emit("SLOAD", rng.choice(["POP", [0, "MSTORE"]]))
                 else:
                     sym()
                     a.emit("SWAP1", "SSTORE")
